@@ -149,7 +149,8 @@ def _location(loc: Dict[str, Any]) -> Any:
 _DATE = re.compile(r"\d{2}-[A-Z]{3}-\d{4}")
 
 
-def build_record(case: Dict[str, Any]) -> Any:
+def build_record(case: Dict[str, Any], between: Any = None) -> Any:
+    """the record of a pipeline case; `subs` (optional): [[start, end], …] subregions that exist before detection"""
     from Bio.Seq import Seq
     from antismash.common.secmet import Record
     from antismash.common.secmet.test.helpers import DummyCDS
@@ -165,7 +166,13 @@ def build_record(case: Dict[str, Any]) -> Any:
     rec.annotations["organism"] = "org"
     rec.annotations["date"] = "01-JAN-2000"
     for g in case["genes"]:
+        if between:
+            between()
         rec.add_cds_feature(DummyCDS(location=_location(g["loc"]), locus_tag=g["name"], translation="MAA"))
+    for start, end in case.get("subs", []):
+        from antismash.common.secmet.features import SubRegion
+        from antismash.common.secmet.locations import FeatureLocation
+        rec.add_subregion(SubRegion(FeatureLocation(start, end, 1), tool="pre", label="existing"))
     return rec
 
 
@@ -454,8 +461,44 @@ def stage_formation(case: Dict[str, Any]) -> Dict[str, str]:
     return out
 
 
+# ----------------------------------------------------------------------------- --sideload-by-cds
+
+def sideload_by_cds(case: Dict[str, Any]) -> Any:
+    """{"len":n,"circ":bool,"genes":[[start,end,strand],…] (named g0, g1, …),"tags":[name,…],"pad":n}:
+       the record and the sideloader results of `--sideload-by-cds tags` with the given padding"""
+    from antismash.common.secmet.test.helpers import DummyCDS, DummyRecord
+    from antismash.detection.sideloader import general
+    genes = [DummyCDS(start=s, end=e, strand=st, locus_tag=f"g{i}") for i, (s, e, st) in enumerate(case["genes"])]
+    record = DummyRecord(seq="A" * case["len"], features=genes, circular=case["circ"], record_id="contig")
+    results = general.load_single_record_annotations([], record, None, cds_markers=list(case["tags"]),
+                                                     cds_marker_padding=case["pad"])
+    return record, results
+
+
+def stage_sideload(case: Dict[str, Any]) -> Dict[str, str]:
+    from Bio import SeqIO
+    try:
+        record, results = sideload_by_cds(case)
+    except Exception as exc:  # pylint: disable=broad-except
+        return {"sideload_json": _err(exc)}
+    out = {"sideload_json": json.dumps(results.to_json())}
+    try:
+        results.add_to_record(record)
+        record.create_regions()
+        out["subregions"] = json.dumps([[sub.get_subregion_number(), sub.label, str(sub.location)]
+                                        for sub in record.get_subregions()])
+        bio = record.to_biopython()
+        bio.annotations["date"] = "01-JAN-2000"
+        handle = io.StringIO()
+        SeqIO.write([bio], handle, "genbank")
+        out["genbank_features"] = _DATE.sub("DD-MMM-YYYY", handle.getvalue().split("ORIGIN")[0])
+    except Exception as exc:  # pylint: disable=broad-except
+        out["subregions"] = _err(exc)
+    return out
+
+
 STAGES = {"refine": stage_refine, "hmmer": stage_hmmer, "filter": stage_filter, "pipeline": stage_pipeline,
-          "region": stage_region, "ruleset": stage_ruleset, "formation": stage_formation}
+          "region": stage_region, "ruleset": stage_ruleset, "formation": stage_formation, "sideload": stage_sideload}
 
 
 def main() -> None:
